@@ -125,7 +125,22 @@ fn run_once_policy(data: &Path, dump: &Path, coin_name: &str, cb: &str, prefix: 
     (RunResult { code, signal, stdout: String::new(), stderr: format!("the execution terminated the process: exit {:?} signal {:?}", code, signal), files }, sched::Outcome { choices: vec![], order: vec![], regions: 0, tasks: 0, diverged: None, sync_points: 0, preemptions: 0 })
 }
 
+/// The subject reads the monotonic clock (a status line every 10 s, "Done in x minutes"): inside an execution the clock is an
+/// answer of the harness like every other input - it stands still (the shim's virtual clock), so that a slow machine cannot
+/// make one schedule print a status line another one does not. No-op when the shim is not loaded.
+fn freeze_clock() {
+    unsafe {
+        let name = std::ffi::CString::new("verif_set_clock_step").unwrap();
+        let f = libc::dlsym(libc::RTLD_DEFAULT, name.as_ptr());
+        if !f.is_null() {
+            let f: extern "C" fn(i64) = std::mem::transmute(f);
+            f(0);
+        }
+    }
+}
+
 fn run_inline(data: &Path, dump: &Path, coin_name: &str, cb: &str, prefix: &[usize], workers: usize, policy: usize) -> (RunResult, sched::Outcome) {
+    freeze_clock();
     let _ = std::fs::remove_dir_all(dump);
     std::fs::create_dir_all(dump).unwrap();
     LOGBUF.lock().unwrap().clear();
@@ -179,6 +194,17 @@ struct WorldSpec {
     coin: &'static str,
     /// per block: per transaction the number of outputs (first entry = coinbase)
     blocks: Vec<Vec<usize>>,
+    /// > 0: the explored blocks are preceded by a warm-up block whose coinbase pays to this many DISTINCT scripts; it is
+    /// executed in item order without choice points (exploration starts from a non-initial state: whatever the subject keeps
+    /// between blocks - a memo, a ring of recent scripts, a table that is recycled when full - is filled by then)
+    warmup: usize,
+}
+
+/// the i-th distinct warm-up script (P2PKH of a hash that encodes i)
+fn warm_script(i: usize) -> Vec<u8> {
+    let mut h = [0xa5u8; 20];
+    h[..8].copy_from_slice(&(i as u64).to_le_bytes());
+    script::p2pkh(&h)
 }
 
 fn build_world(w: &WorldSpec) -> ChainBuilder {
@@ -195,6 +221,10 @@ fn build_world(w: &WorldSpec) -> ChainBuilder {
             _ => TxOut { value: 9 + seed as u64, script: script::p2sh(&script::h20(seed)) },
         }
     };
+    if w.warmup > 0 {
+        let h = cb.next_height();
+        cb.push_raw(vec![coinbase(h, 9, (1..=w.warmup).map(|i| TxOut { value: 1 + i as u64, script: warm_script(i) }).collect())]);
+    }
     for blk in &w.blocks {
         let h = cb.next_height();
         let mut txs = Vec::new();
@@ -203,9 +233,15 @@ fn build_world(w: &WorldSpec) -> ChainBuilder {
             if ti == 0 {
                 let outs = if w.name.contains("same script") {
                     (0..*n_out).map(|k| TxOut { value: 5 + k as u64, script: script::p2pkh(&script::h20(7)) }).collect()
+                } else if w.warmup > 0 {
+                    // old scripts at the point where a table of 1024 / 4096 (or 2048) entries filled in order of first use starts to
+                    // recycle (genesis script = entry 0, warm-up scripts = entries 1..=warmup), each next to a script never seen
+                    let cap = if w.name.contains("1024") { 1024 } else if w.name.contains("2048") { 2048 } else { 4096 };
+                    let victim = w.warmup + 1 - cap;
+                    (0..*n_out).map(|k| TxOut { value: 5 + k as u64, script: if k % 2 == 0 { warm_script(victim + k / 2) } else { warm_script(1_000_000 + k) } }).collect()
                 } else if w.name.contains("A B A") {
                     // scripts repeat with another one in between (and the two kinds differ in type: P2PKH / P2SH of one hash)
-                    (0..*n_out).map(|k| TxOut { value: 5 + k as u64, script: if k % 2 == 0 { script::p2pkh(&script::h20(7)) } else { script::p2sh(&script::h20(7)) } }).collect()
+                    (0..*n_out).map(|k| TxOut { value: if k % 2 == 0 { 5 + k as u64 } else { 0 }, script: if k % 2 == 0 { script::p2pkh(&script::h20(7)) } else { script::p2sh(&script::h20(7)) } }).collect()
                 } else {
                     outs
                 };
@@ -243,7 +279,7 @@ fn scratch() -> PathBuf {
     refmodel::world::scratch_root()
 }
 
-fn explore_subtree(data: &Path, dump: &Path, w: &WorldSpec, cb: &str, roots: &[Vec<usize>], baseline: &Value, stats: &mut Value, deadline: Option<std::time::Instant>) {
+fn explore_subtree(data: &Path, dump: &Path, w: &WorldSpec, cb: &str, roots: &[Vec<usize>], baseline: &Value, stats: &mut Value, deadline: Option<std::time::SystemTime>) {
     let mut stack: Vec<Vec<usize>> = roots.iter().rev().cloned().collect();
     let (mut sync_points, mut preempted, mut capped) = (0u64, 0u64, false);
     let mut schedules = 0u64;
@@ -253,7 +289,7 @@ fn explore_subtree(data: &Path, dump: &Path, w: &WorldSpec, cb: &str, roots: &[V
     let mut diverged = 0u64;
     let mut max_cp = 0usize;
     while let Some(prefix) = stack.pop() {
-        if deadline.map(|d| std::time::Instant::now() > d).unwrap_or(false) || (deadline.is_some() && violation.is_some()) {
+        if deadline.map(|d| std::time::SystemTime::now() > d).unwrap_or(false) || (deadline.is_some() && violation.is_some()) {
             capped = violation.is_none();
             break;
         }
@@ -295,9 +331,11 @@ fn worker(spec_path: &str, out_path: &str) {
     *IN_FLIGHT.lock().unwrap() = Some(PathBuf::from(format!("{}.inflight", out_path)));
     VERIFY.store(true, std::sync::atomic::Ordering::SeqCst);
     let spec: Value = serde_json::from_str(&std::fs::read_to_string(spec_path).unwrap()).unwrap();
-    let w = WorldSpec { name: spec["name"].as_str().unwrap().into(), coin: coin(spec["coin"].as_str().unwrap()).name, blocks: serde_json::from_value(spec["blocks"].clone()).unwrap() };
+    let w = WorldSpec { name: spec["name"].as_str().unwrap().into(), coin: coin(spec["coin"].as_str().unwrap()).name, blocks: serde_json::from_value(spec["blocks"].clone()).unwrap(), warmup: spec["warmup"].as_u64().unwrap_or(0) as usize };
     sched::set_preemption_bound(spec["preemption_bound"].as_u64().unwrap_or(0) as usize);
-    let deadline = spec["budget_ms"].as_u64().map(|ms| std::time::Instant::now() + std::time::Duration::from_millis(ms));
+    sched::set_warmup_regions(if w.warmup > 0 { 4 } else { 0 });
+    // (calendar clock: the monotonic one stands still in a process that runs executions inline)
+    let deadline = spec["budget_ms"].as_u64().map(|ms| std::time::SystemTime::now() + std::time::Duration::from_millis(ms));
     let root = scratch();
     let data = root.join("data");
     refmodel::world::copy_dir(Path::new(spec["data"].as_str().unwrap()), &data).unwrap();
@@ -363,6 +401,8 @@ fn canary() -> usize {
 #[allow(clippy::too_many_arguments)]
 fn explore_world(rep: &mut Report, root: &Path, exe: &Path, tag: &str, w: &WorldSpec, cbs: &[&'static str], pbound: usize, budget_ms: Option<u64>, bound: &mut serde_json::Map<String, Value>, total_pred: &mut f64) -> u64 {
     sched::set_preemption_bound(pbound);
+    // genesis block and warm-up block: one region for the block, one for its single transaction, each
+    sched::set_warmup_regions(if w.warmup > 0 { 4 } else { 0 });
     let mut sync_points_seen = 0u64;
     let sig = if pbound == 0 { "outcome-depends-on-schedule" } else { "outcome-depends-on-interleaving-inside-closures" };
     let chain = build_world(w);
@@ -420,7 +460,7 @@ fn explore_world(rep: &mut Report, root: &Path, exe: &Path, tag: &str, w: &World
                 if !p.is_empty() {
                     singles += 1;
                     if observe(&rr, &wdir) != baseline {
-                        rep.disagree(sig, format!("{} {} {}: schedule {:?} (execution order {:?}) gives a different result than schedule []", w.coin, w.name, cb, p, oc.order), json!({"kind": "schedule", "world": {"name": w.name, "coin": w.coin, "blocks": w.blocks}, "callback": cb, "schedule": p, "preemption_bound": pbound}));
+                        rep.disagree(sig, format!("{} {} {}: schedule {:?} (execution order {:?}) gives a different result than schedule []", w.coin, w.name, cb, p, oc.order), json!({"kind": "schedule", "world": {"name": w.name, "coin": w.coin, "blocks": w.blocks, "warmup": w.warmup}, "callback": cb, "schedule": p, "preemption_bound": pbound}));
                     }
                 }
                 for i in p.len()..oc.choices.len() {
@@ -456,7 +496,7 @@ fn explore_world(rep: &mut Report, root: &Path, exe: &Path, tag: &str, w: &World
         if myjobs.is_empty() {
             continue;
         }
-        let spec = json!({"name": w.name, "coin": w.coin, "blocks": w.blocks, "data": data.display().to_string(), "jobs": myjobs, "preemption_bound": pbound, "budget_ms": budget_ms});
+        let spec = json!({"name": w.name, "coin": w.coin, "blocks": w.blocks, "warmup": w.warmup, "data": data.display().to_string(), "jobs": myjobs, "preemption_bound": pbound, "budget_ms": budget_ms});
         let sp = wdir.join(format!("spec{}.json", k));
         let op = wdir.join(format!("out{}.json", k));
         std::fs::write(&sp, spec.to_string()).unwrap();
@@ -496,7 +536,7 @@ fn explore_world(rep: &mut Report, root: &Path, exe: &Path, tag: &str, w: &World
             if inflight.is_null() {
                 rep.machinery(format!("{}: worker failed before its first execution", w.name));
             } else {
-                rep.disagree(sig, format!("{} {} {}: schedule {} ended the process ({:?}) while schedule [] ran to completion", w.coin, w.name, inflight["callback"].as_str().unwrap_or("?"), inflight["schedule"], st.map(|s| s.to_string()).unwrap_or_default()), json!({"kind": "schedule", "world": {"name": w.name, "coin": w.coin, "blocks": w.blocks}, "callback": inflight["callback"], "schedule": inflight["schedule"], "preemption_bound": pbound}));
+                rep.disagree(sig, format!("{} {} {}: schedule {} ended the process ({:?}) while schedule [] ran to completion", w.coin, w.name, inflight["callback"].as_str().unwrap_or("?"), inflight["schedule"], st.map(|s| s.to_string()).unwrap_or_default()), json!({"kind": "schedule", "world": {"name": w.name, "coin": w.coin, "blocks": w.blocks, "warmup": w.warmup}, "callback": inflight["callback"], "schedule": inflight["schedule"], "preemption_bound": pbound}));
             }
             continue;
         }
@@ -515,7 +555,7 @@ fn explore_world(rep: &mut Report, root: &Path, exe: &Path, tag: &str, w: &World
                 rep.machinery(format!("{} {}: {} replays diverged from their prefix", w.name, cb, s["diverged"]));
             }
             if !s["violation"].is_null() {
-                rep.disagree(sig, format!("{} {} {}: schedule {} (execution order {}) gives a different result than schedule []", w.coin, w.name, cb, s["violation"]["schedule"], s["violation"]["execution_order"]), json!({"kind": "schedule", "world": {"name": w.name, "coin": w.coin, "blocks": w.blocks}, "callback": cb, "schedule": s["violation"]["schedule"], "preemption_bound": pbound}));
+                rep.disagree(sig, format!("{} {} {}: schedule {} (execution order {}) gives a different result than schedule []", w.coin, w.name, cb, s["violation"]["schedule"], s["violation"]["execution_order"]), json!({"kind": "schedule", "world": {"name": w.name, "coin": w.coin, "blocks": w.blocks, "warmup": w.warmup}, "callback": cb, "schedule": s["violation"]["schedule"], "preemption_bound": pbound}));
             }
         }
     }
@@ -551,6 +591,7 @@ fn explore_world(rep: &mut Report, root: &Path, exe: &Path, tag: &str, w: &World
     }
     let _ = std::fs::remove_dir_all(&wdir);
     sched::set_preemption_bound(0);
+    sched::set_warmup_regions(0);
     sync_points_seen
 }
 
@@ -649,9 +690,14 @@ fn sync_part(rep: &mut Report, root: &Path, exe: &Path, sync_seen_at_bound_0: u6
     // worlds for the bounded phases: few items, scripts that repeat (shared memo / cache shapes), both evaluators
     let mut worlds: Vec<WorldSpec> = Vec::new();
     for cn in ["bitcoin", "litecoin"] {
-        worlds.push(WorldSpec { name: "1tx x 3out, scripts A B A".into(), coin: cn, blocks: vec![vec![3]] });
-        worlds.push(WorldSpec { name: "2tx x 2out, scripts A B A".into(), coin: cn, blocks: vec![vec![2, 2]] });
+        worlds.push(WorldSpec { name: "1tx x 3out, scripts A B A".into(), coin: cn, blocks: vec![vec![3]], warmup: 0 });
+        worlds.push(WorldSpec { name: "2tx x 2out, scripts A B A".into(), coin: cn, blocks: vec![vec![2, 2]], warmup: 0 });
+        // one output of every kind (address-bearing with value, zero-value data carrier, P2PK, P2SH)
+        worlds.push(WorldSpec { name: "1tx x 4out".into(), coin: cn, blocks: vec![vec![4]], warmup: 0 });
     }
+    // non-initial states: 4100 distinct scripts evaluated before the explored block
+    worlds.push(WorldSpec { name: "after 4100 distinct scripts: 1tx x 4out, oldest-of-4096 / new / next / new".into(), coin: "bitcoin", blocks: vec![vec![4]], warmup: 4100 });
+    worlds.push(WorldSpec { name: "after 4100 distinct scripts: 1tx x 4out, oldest-of-1024 / new / next / new".into(), coin: "litecoin", blocks: vec![vec![4]], warmup: 4100 });
     let cbs: Vec<&'static str> = vec!["csvdump", "simplestats"];
     let mut total = 0f64;
     // do these worlds meet synchronisation at all? (bound 0 on them is part of the answer and cheap: 6 + 280 schedules)
@@ -696,18 +742,18 @@ fn c13() -> Report {
     let fast = vec!["csvdump", "simplestats", "opreturn"];
     let all5 = vec!["csvdump", "simplestats", "opreturn", "unspentcsvdump", "balances"];
     for cn in ["bitcoin", "litecoin"] {
-        worlds.push((WorldSpec { name: "1tx x 4out".into(), coin: cn, blocks: vec![vec![4]] }, all5.clone()));
-        worlds.push((WorldSpec { name: "2tx x 2out".into(), coin: cn, blocks: vec![vec![2, 2]] }, all5.clone()));
-        worlds.push((WorldSpec { name: "2tx x 2out, all outputs carry the same script".into(), coin: cn, blocks: vec![vec![2, 2]] }, fast.clone()));
-        worlds.push((WorldSpec { name: "3tx x 1out".into(), coin: cn, blocks: vec![vec![1, 1, 1]] }, fast.clone()));
-        worlds.push((WorldSpec { name: "2 blocks of 2tx x 1out".into(), coin: cn, blocks: vec![vec![1, 1], vec![1, 1]] }, fast.clone()));
+        worlds.push((WorldSpec { name: "1tx x 4out".into(), coin: cn, blocks: vec![vec![4]], warmup: 0 }, all5.clone()));
+        worlds.push((WorldSpec { name: "2tx x 2out".into(), coin: cn, blocks: vec![vec![2, 2]], warmup: 0 }, all5.clone()));
+        worlds.push((WorldSpec { name: "2tx x 2out, all outputs carry the same script".into(), coin: cn, blocks: vec![vec![2, 2]], warmup: 0 }, fast.clone()));
+        worlds.push((WorldSpec { name: "3tx x 1out".into(), coin: cn, blocks: vec![vec![1, 1, 1]], warmup: 0 }, fast.clone()));
+        worlds.push((WorldSpec { name: "2 blocks of 2tx x 1out".into(), coin: cn, blocks: vec![vec![1, 1], vec![1, 1]], warmup: 0 }, fast.clone()));
         if thorough {
-            worlds.push((WorldSpec { name: "2tx x 3out".into(), coin: cn, blocks: vec![vec![3, 3]] }, all5.clone()));
-            worlds.push((WorldSpec { name: "4tx x 1out".into(), coin: cn, blocks: vec![vec![1, 1, 1, 1]] }, fast.clone()));
+            worlds.push((WorldSpec { name: "2tx x 3out".into(), coin: cn, blocks: vec![vec![3, 3]], warmup: 0 }, all5.clone()));
+            worlds.push((WorldSpec { name: "4tx x 1out".into(), coin: cn, blocks: vec![vec![1, 1, 1, 1]], warmup: 0 }, fast.clone()));
         }
     }
     if thorough {
-        worlds.push((WorldSpec { name: "3tx x 2out".into(), coin: "bitcoin", blocks: vec![vec![2, 2, 2]] }, vec!["csvdump"]));
+        worlds.push((WorldSpec { name: "3tx x 2out".into(), coin: "bitcoin", blocks: vec![vec![2, 2, 2]], warmup: 0 }, vec!["csvdump"]));
     }
     rep.rule = "for each world (txs x outputs per block) EVERY item-level schedule of the two nested parallel regions (Block::new over transactions, EvaluatedTx::new over outputs) is executed on the repository's own code with rayon replaced by a controlled-scheduler model (baton, real threads, stateless DFS over recorded choice points, no partial-order reduction); every schedule's complete observation (files, simplestats report, opreturn lines; row sets for unspent/balances) must equal schedule 0's, which must equal the reference model; non-trivial = distinct (world, callback, execution order)".into();
     let root = scratch();
@@ -745,7 +791,7 @@ fn replay(path: &str) -> i32 {
         eprintln!("not a schedule case");
         return 2;
     }
-    let w = WorldSpec { name: case["world"]["name"].as_str().unwrap().into(), coin: coin(case["world"]["coin"].as_str().unwrap()).name, blocks: serde_json::from_value(case["world"]["blocks"].clone()).unwrap() };
+    let w = WorldSpec { name: case["world"]["name"].as_str().unwrap().into(), coin: coin(case["world"]["coin"].as_str().unwrap()).name, blocks: serde_json::from_value(case["world"]["blocks"].clone()).unwrap(), warmup: case["world"]["warmup"].as_u64().unwrap_or(0) as usize };
     let cb = case["callback"].as_str().unwrap();
     let schedule: Vec<usize> = serde_json::from_value(case["schedule"].clone()).unwrap();
     let pbound = case["preemption_bound"].as_u64().unwrap_or(0) as usize;
@@ -756,6 +802,7 @@ fn replay(path: &str) -> i32 {
     let dump = root.join("dump");
     VERIFY.store(true, std::sync::atomic::Ordering::SeqCst);
     sched::set_preemption_bound(pbound);
+    sched::set_warmup_regions(if w.warmup > 0 { 4 } else { 0 });
     let (r0, _) = run_once(&data, &dump, w.coin, cb, &[]);
     let base = observe(&r0, &root);
     let (r1, o1) = run_once(&data, &dump, w.coin, cb, &schedule);
